@@ -715,6 +715,42 @@ func ruleThresholds(c *Ctx) {
 				}},
 			thrSpec{fn: fn, what: "1 dropped against d when `d.exp > B`", props: []string{"C16", "C18"}, extract: expIf(token.GTR, 0), admissible: dropAbove})
 	}
+	for _, fn := range []string{"decomposed192.quo", "decomposed192.rcp"} {
+		specs = append(specs, thrSpec{fn: fn, what: "divisor pre-scaling loop `sig[2] >= C`", props: []string{"C16", "C17", "C18"},
+			extract: func(p *Prog, fd *ast.FuncDecl) (int64, ast.Node, bool) {
+				var k int64
+				var node ast.Node
+				found := false
+				ast.Inspect(fd.Body, func(n ast.Node) bool {
+					f, isFor := n.(*ast.ForStmt)
+					if !isFor || found || f.Cond == nil {
+						return true
+					}
+					_, op, kb, ok := p.normCmp(f.Cond)
+					if !ok || op != token.GTR || !kb.IsInt64() {
+						return true
+					}
+					divides := false
+					ast.Inspect(f.Body, func(m ast.Node) bool {
+						if call, isCall := m.(*ast.CallExpr); isCall && strings.HasSuffix(p.calleeName(call), ".div10") {
+							divides = true
+						}
+						return true
+					})
+					if divides {
+						k, node, found = kb.Int64()+1, f, true // sig[2] > k  ==  sig[2] >= k+1
+					}
+					return true
+				})
+				return k, node, found
+			},
+			admissible: func(cc int64) (bool, string) {
+				// the loop drops divisor digits while sig >= C·2^128; what is left has at least log10(C·2^128)-1 digits.
+				// Sqrt/Cbrt's 1e-20 ulp margin on a 34-digit result needs 55 digits of the divisor.
+				kept := mulf(new(big.Float).SetPrec(300).SetInt64(cc), new(big.Float).SetPrec(300).SetInt(new(big.Int).Lsh(big.NewInt(1), 128)))
+				return kept.Cmp(f10(56)) >= 0, "the divisor keeps at least 55 digits: C·2^128 >= 10^56"
+			}})
+	}
 	specs = append(specs, thrSpec{fn: "decomposed192.powexp10", what: "overflow exit before the last product `d.exp + r.exp > C`", props: []string{"C18", "C16"},
 		extract: func(p *Prog, fd *ast.FuncDecl) (int64, ast.Node, bool) {
 			var k int64
